@@ -31,7 +31,7 @@ def rangeLen (s e st : Int) : Nat :=
 
 /-- `list(range(s, e, st))`. -/
 def rangeList (s e st : Int) : List Int :=
-  (List.range (rangeLen s e st)).map fun i => s + (i : Int) * st
+  (List.range (rangeLen s e st)).map fun (i : Nat) => s + (i : Int) * st
 
 /-- Positions selected by `[start:stop:step]` on a sequence of length `n`. -/
 def slicePos (n : Nat) (start stop step : Option Int) : Option (List Nat) :=
